@@ -27,6 +27,8 @@ class StateVectorEvolution(MatrixData, BasisManaged):
                                  dtype=numpy.complex128)
         self.dim = psii.data.shape[0]
         self.data[0,:] = psii.data
+        
+        self.is_in_rwa = False
 
 
     def convert_from_RWA(self, ham, sgn=1):
